@@ -210,6 +210,35 @@ theorem hamilton_exact (T W : Int) (hT : 0 < T) (hW : 0 < W) (ns : List Node)
     (hamilton T W ns).sum = T ∧ (hamilton T W ns).length = ns.length ∧ ∀ d ∈ hamilton T W ns, 0 ≤ d :=
   ⟨hamilton_sum T W hT hW ns hw hsum, hamilton_length T W ns, hamilton_nonneg T W ns⟩
 
+/-- proportional to the shared weights, exact in integers: every sibling's share of one round is the
+    floor of its exact proportional share, or that plus one unit; a sibling with no positive weight gets 0. -/
+theorem hamilton_proportional (T W : Int) (hT : 0 < T) (hW : 0 < W) (ns : List Node) (hne : ns ≠ [])
+    (j : Nat) (hj : j < ns.length) :
+    let δ := (hamilton T W ns)[j]'(by rw [hamilton_length]; exact hj)
+    (0 < ns[j].weight → W * δ ≤ ns[j].weight * T + W ∧ ns[j].weight * T < W * δ + W) ∧
+    (ns[j].weight ≤ 0 → δ = 0) := by
+  intro δ
+  constructor
+  · intro hw
+    have hf := hamilton_fair T W hT hW ns hne j hj
+    have hb : baseOf T W ns[j] = ns[j].weight * T / W := by
+      have : ¬ ns[j].weight ≤ 0 := by omega
+      simp [baseOf, this]
+    rw [hb] at hf
+    have h1 := Int.mul_ediv_add_emod (ns[j].weight * T) W
+    have h2 := Int.emod_nonneg (ns[j].weight * T) (show W ≠ 0 by omega)
+    have h3 := Int.emod_lt_of_pos (ns[j].weight * T) hW
+    generalize ns[j].weight * T / W = q at *
+    generalize ns[j].weight * T % W = r at *
+    generalize ns[j].weight * T = x at *
+    have hδ : q ≤ δ ∧ δ ≤ q + 1 := hf
+    have e1 : W * δ ≤ W * (q + 1) := Int.mul_le_mul_of_nonneg_left hδ.2 (by omega)
+    have e2 : W * q ≤ W * δ := Int.mul_le_mul_of_nonneg_left hδ.1 (by omega)
+    rw [Int.mul_add] at e1
+    constructor <;> omega
+  · intro hw
+    exact hamilton_zero_weight_delta T W ns j hj hw
+
 /-- side condition of `bits.Div64(hi, lo, W)`: `hi < W`, i.e. the quotient fits in 64 bits. -/
 theorem div64_no_panic (w T W : Nat) (hw : w ≤ W) (hW : 0 < W) (hT : T < 2 ^ 64) :
     (w * T) / 2 ^ 64 < W := by
